@@ -336,9 +336,19 @@ func BuildTree(doc *Doc, o TreeOpts) []*Dir {
 				if len(pre) == 2 && o.chance(1, 2) {
 					pre[0], pre[1] = pre[1], pre[0]
 				}
-				u.Add(pre...)
+				var mds []*Dir
 				for mi, m := range res.Methods {
-					u.Add(methodDir(m, false, o, fmt.Sprintf("%s/M%d", tag, mi)))
+					mds = append(mds, methodDir(m, false, o, fmt.Sprintf("%s/M%d", tag, mi)))
+				}
+				if last := len(mds) - 1; !o.Plain && len(pre) > 0 && last >= 0 && len(mds[last].Children) > 0 && o.chance(1, 4) {
+					// the URL's own Tags / Path written after its methods: legal when the method before them closes its
+					// context explicitly, otherwise they would belong to that method
+					mds[last].Explicit = "yes"
+					u.Add(mds...)
+					u.Add(pre...)
+				} else {
+					u.Add(pre...)
+					u.Add(mds...)
 				}
 				root = append(root, u)
 			default:
